@@ -99,7 +99,8 @@ class C10:
             "output dictionary after every tick equals the key-set model - keys of the (union) key set whose child output is valid - with, per key, the "
             "value F produces when run alone on that key's element stream since the key (re)appeared (fresh state after re-add); an error is reported "
             "under the failing key only and at the throwing cycle; child start/stop hooks pair with key add/remove. non-trivial = >= 1 key removed and "
-            ">= 3 output ticks; distinct = distinct (F, histories)")
+            ">= 3 output ticks; distinct = distinct (F, histories)"
+            " Round 3: TickAdd2 (self-scheduling node on the first argument combined with a second dictionary whose keys are a changing subset of the first s); histories with 65-140 live keys.")
     assumptions = ["removal and re-insertion of one key inside a single cycle is not generated here (known finding F6 concerns that path)",
                    "the per-key solo reference is the Python model of the library function (sim/ho.py FnModel), not a second engine run"]
 
